@@ -2,7 +2,7 @@
 EXTENDS Split
 VARIABLE cfg
 Init == cfg \in Configs
-Next == UNCHANGED cfg
+Next == \E n \in cfg.reg : cfg' = Lookup(cfg, n)
 Spec == Init /\ [][Next]_cfg
 \* every route the code-shaped function may take is allowed, and routing is total
 InvC17 == \A c \in Clients : /\ Routes(cfg, c) # {}
